@@ -407,6 +407,13 @@ def replay_file(path):
     prop = doc["property"]
     sc = doc["scenario"]
     target = doc["expect"]
+    if doc.get("twice"):
+        # the same scenario executed twice in this process must give the same trace
+        h1, h2 = scenario_hashes(path), scenario_hashes(path)
+        from .tracewalk import Violation
+        if h1 != h2:
+            return True, [Violation(prop, target["rule"], target["signature"], doc.get("message") or "")], []
+        return False, [], []
     if doc.get("xproc"):
         # cross-process determinism: the same scenario in fresh interpreters that differ only in PYTHONHASHSEED
         outs = [scenario_hashes_fresh(path, hs) for hs in doc["xproc"]["hashseeds"]]
@@ -498,20 +505,35 @@ def xproc_violation(prop, why):
     """C16 only: a trace that differs between interpreters differing only in PYTHONHASHSEED *is* the property's
     violation (every other property's check runs the same harness through the same self-test, which shows the
     harness itself does not depend on the hash seed).  Returns the replay path, or None if it does not reproduce."""
-    key = why.rsplit(" ", 1)[-1]
-    fam, seed = key.rsplit(":", 1)
+    inproc = why.startswith("in-process divergence")
+    if inproc:
+        # "in-process divergence prop=C16 family=det_sync seed=900000"
+        parts = dict(x.split("=", 1) for x in why.split() if "=" in x)
+        fam, seed = parts["family"], parts["seed"]
+    else:
+        key = why.rsplit(" ", 1)[-1]
+        fam, seed = key.rsplit(":", 1)
     reg = REGISTRY[prop]
     gen = dict((n, g) for n, _w, g in reg["families"])[fam]
     sc = gen(int(seed))
     sc.setdefault("property", prop)
     sc.setdefault("family", fam)
     sc.setdefault("seed", int(seed))
-    vj = {"property": prop, "rule": "trace-depends-on-hash-seed", "signature": {"family": fam},
-          "message": f"{fam} seed {seed}: the recorded trace differs between two fresh interpreters that differ only in PYTHONHASHSEED"}
+    if inproc:
+        vj = {"property": prop, "rule": "trace-differs-between-identical-runs", "signature": {"family": fam},
+              "message": f"{fam} seed {seed}: the same scenario executed twice in one process (same salts, fresh machine objects) "
+                         f"gave two different traces"}
+    else:
+        vj = {"property": prop, "rule": "trace-depends-on-hash-seed", "signature": {"family": fam},
+              "message": f"{fam} seed {seed}: the recorded trace differs between two fresh interpreters that differ only in PYTHONHASHSEED"}
     os.makedirs(REPLAYS, exist_ok=True)
-    path = os.path.join(REPLAYS, f"{prop}-trace-depends-on-hash-seed-{fam}-{seed}.json")
+    path = os.path.join(REPLAYS, f"{prop}-{vj['rule']}-{fam}-{seed}.json")
     doc = {"format": 1, "property": prop, "expect": {"property": prop, "rule": vj["rule"], "signature": vj["signature"]},
-           "message": vj["message"], "xproc": {"hashseeds": [0, 12345]}, "scenario": sc}
+           "message": vj["message"], "scenario": sc}
+    if inproc:
+        doc["twice"] = True
+    else:
+        doc["xproc"] = {"hashseeds": [0, 12345]}
     with open(path, "w") as f:
         json.dump(doc, f, indent=1, default=str)
     ok, _out = verify_replay_fresh(path)
@@ -555,7 +577,7 @@ def run_check(prop, tier="quick", seed=1, workers=None, wall=None, max_runs=None
     if selftest:
         n_self = (8 if tier == "quick" else 24) * int(reg.get("selftest_scale", 1))
         ok, why = determinism_selftest(prop, n=n_self)
-        if not ok and reg.get("xproc_is_violation") and why.startswith("fresh-interpreter divergence at "):
+        if not ok and reg.get("xproc_is_violation") and why.startswith(("fresh-interpreter divergence at ", "in-process divergence")):
             path, vj = xproc_violation(prop, why)
             if path is None:
                 print(f"HARNESS-ERROR determinism self-test failed and did not reproduce: {why}")
